@@ -57,6 +57,10 @@ func genCase(t *rapid.T) Case {
 	switch rapid.IntRange(0, 9).Draw(t, "flag") {
 	case 0:
 		c.Flags = append(c.Flags, "-e")
+		if rapid.Bool().Draw(t, "enull") {
+			// with -e the run fails when nothing, null or false comes out: the file then stays as it was
+			c.Expr = rapid.SampledFrom([]string{`.nope`, `select(.nope)`, `.a == "never"`, `.nope.deeper`, `null`, `false`}).Draw(t, "eexpr")
+		}
 	case 1, 6:
 		c.Flags = append(c.Flags, "--front-matter=process")
 		c.Name = "post.md"
